@@ -50,7 +50,11 @@ class InitMethod(MethodDescriptor):
             )
             for parent in reversed(spec_cls.mro()[1:]):
                 parent_metadata = getattr(parent, "__spec_class__", None)
-                if parent_metadata:
+                # A class that merely inherits its constructor (e.g. a plain
+                # class sitting between two spec-classes) has nothing of its
+                # own to run; calling it would re-run the constructor of the
+                # class it inherits from without the keyword arguments.
+                if parent_metadata and "__init__" in parent.__dict__:
                     parent_kwargs = {}
                     for attr in parent_metadata.attrs:
                         instance_attr_spec = instance_metadata.attrs[attr]
